@@ -79,4 +79,12 @@ COMMON_TRUSTED = [
 ]
 
 if __name__ == "__main__":
-    sys.exit(main(sys.argv))
+    try:
+        rc_ = main(sys.argv)
+    except SystemExit:
+        raise
+    except BaseException:  # noqa: BLE001 - a defect of the checker itself: broken (2), never a verdict
+        traceback.print_exc()
+        print("CHECK-BROKEN: the checker itself failed (see the traceback above); no verdict")
+        rc_ = 2
+    sys.exit(rc_)
